@@ -109,6 +109,36 @@ def rep_specs(tier: str):
     return out
 
 
+def two_level_specs(tier: str):
+    """Two nested backtracking constructs, each holding a stack operation: PUSH("a") ~ PUSH("b") ~ W1[ op1 ~ W2[ op2 ~ F2 ] ~ F1 ] ~ probe.
+    The inner construct may pop BELOW what the outer one popped; every combination of committing / abandoning the two levels."""
+    ops = (("pop",), ("drop",), ("push", S("a")), ("popall",), ("peek",), ("pushlit", "b"))
+    wraps = ("alt", "opt", "star", "and", "not", "none")
+    starts = []
+    pre = (("push", S("a")), ("push", S("b")))
+    for w1 in wraps:
+        for w2 in wraps:
+            for o1 in ops:
+                for o2 in ops:
+                    for f1 in (False, True):
+                        for f2 in (False, True):
+                            inner = ("seq", (o2, NEVER)) if f2 else o2
+                            if w2 == "star" and (f2 is False and o2[0] in ("push", "pushlit", "peek")):
+                                continue  # a repetition that never fails
+                            mid2 = wrap(w2, ("grp", inner)) if w2 != "none" else ("grp", inner)
+                            body1 = ("seq", (o1, mid2) + ((NEVER,) if f1 else ()))
+                            if w1 == "star" and not f1:
+                                continue
+                            mid1 = wrap(w1, ("grp", body1)) if w1 != "none" else ("grp", body1)
+                            starts.append((f"r{len(starts)}", "", ("seq", pre + (mid1,) + PROBE)))
+    ins = families.inputs("ab", 5 if tier == "quick" else 6)
+    out = []
+    for i in range(0, len(starts), BATCH):
+        grp = starts[i:i + BATCH]
+        out.append(engine.Spec(tuple(grp), [g[0] for g in grp], ins, "zero", "stack-two-levels"))
+    return out
+
+
 def trivia_specs(tier: str):
     """Stack operations next to implicit rules that push and drop themselves (COMMENT = _{ PUSH("#") ~ "!" ~ DROP }):
     a COMMENT attempt that fails after its PUSH must leave the stack as it was, in every mode."""
@@ -156,14 +186,15 @@ def run(tier: str) -> int:
     k, L = BOUNDS[tier]
     hist = history_part(tier)
     return gc.run_model_check(
-        C05(), specs(tier) + rep_specs(tier) + trivia_specs(tier), tier, "model_checking",
+        C05(), specs(tier) + rep_specs(tier) + trivia_specs(tier) + two_level_specs(tier) + [sp for sp in families.metachar_specs("zero", tier)], tier, "model_checking",
         bounds=[{"inner_size": k, "L": L, "alphabet": "ab", "pre": list(PRES), "wrappers": list(WRAPS), "failer": [False, True]}],
         rule="start rules PRE ~ W[INNER ~ FAILER] ~ PEEK_ALL ~ EOI: PRE in {nothing, PUSH_LITERAL(\"a\"), PUSH(\"a\"|\"b\") ~ PUSH(\"a\"|\"b\")}, INNER every expression with <= k nodes over "
              "{\"a\", PUSH(\"a\"|\"b\"), PUSH_LITERAL(\"b\"), POP, PEEK, DROP, PEEK_ALL, POP_ALL, PEEK[..1], PEEK[-1..], PEEK[0..], PEEK[1..2], PEEK[..0]} with ? * & ! ( ) ~ |, W in {none, (. | \"\"), ?, *, &, !}, "
              "FAILER in {nothing, a literal that cannot match}; x every string over {a,b} up to length L; four modes against the reference model (persistent stack: every abandoned attempt and every predicate is undone by construction). "
              "Plus the stack-repetition family: after 2-3 pushes of possibly empty entries (PUSH(\"a\"?), PUSH_LITERAL(\"\"), PUSH(\"a\"|\"b\")), every repetition ? * + {2} {1,} {,2} {1,2} of an operand that can succeed without consuming input "
              "(DROP, (DROP ~ \"a\"?), (\"a\"? ~ DROP), (&DROP ~ POP), (&DROP ~ PEEK ~ DROP), (\"b\" ~ DROP | DROP)), followed by the probe, alone and inside an abandoned alternative. "
-             "Plus stack-with-trivia: \"a\" ~ W[INNER ~ FAILER] ~ \"a\" ~ PEEK_ALL ~ EOI with INNER <= 2 nodes, under WHITESPACE = _{ \" \" } and COMMENT = _{ PUSH(\"#\") ~ \"!\" ~ DROP } (an implicit rule that pushes before it can fail). "
+             "Plus stack-two-levels: PUSH(\"a\") ~ PUSH(\"b\") ~ W1[op1 ~ W2[op2 ~ F2] ~ F1] ~ probe for every pair of six stack operations, every pair of wrappers and every combination of the two levels failing or committing, inputs over {a,b} up to length 5; "
+             "plus literals of regular-expression metacharacters and non-BMP characters through PUSH_LITERAL and PUSH. Plus stack-with-trivia: \"a\" ~ W[INNER ~ FAILER] ~ \"a\" ~ PEEK_ALL ~ EOI with INNER <= 2 nodes, under WHITESPACE = _{ \" \" } and COMMENT = _{ PUSH(\"#\") ~ \"!\" ~ DROP } (an implicit rule that pushes before it can fail). "
              "UNSPEC cases (PEEK/POP on an empty stack, out-of-range slice) are judged only by 'no exception other than PestParsingError'. Non-trivial: the reference run backtracked or returned pairs. "
              "The history-level half of the quantifier is C09's BFS over ParserState.checkpoint/ok/restore x push/drop.",
         assumptions=["implicit trivia only in the stack-with-trivia family (one configuration)"],
